@@ -15,7 +15,9 @@ RULE = (
     "axis directions) of the same geometry, enumerated completely per template and location, run through "
     "compatible_with, get_transform_to and a real Output>>Input link (with time axis, optionally masked, "
     "optionally behind a pass-through adapter); compat_gen: pairs of equal / perturbed geometries for the "
-    "'exactly when' direction; compat_long_enum: axes of 10^3..1.3*10^5 nodes against copies shifted by "
+    "'exactly when' direction; object_histories: a pool of live grid objects (copies, other layouts) whose data "
+    "locations are switched in place, compatible_with / get_transform_to asked repeatedly for the same pairs; "
+    "compat_long_enum: axes of 10^3..1.3*10^5 nodes against copies shifted by "
     "0.01..1 cell along the long axis (must be incompatible) or re-laid out (must be compatible). non-trivial = at least 2 non-degenerate axes and the two layouts differ in at "
     "least one flag (canon: one non-default flag). distinct = distinct canonical JSON of the case."
 )
@@ -381,6 +383,97 @@ def enum_compat_long(tier):
                     yield {"a": base, "b": other, "shift": shift}
 
 
+# ------------------------------------------------------------------ histories over a pool of live grid objects
+def check_objects(case, ctx):
+    """a pool of up to 4 live grid objects of one geometry (copies, other layouts), data locations switched in place
+    through the setter; compatible_with / get_transform_to are asked again and again for the same pairs of objects.
+    Every answer must be the one fresh grids in the present state would give (nothing remembered from earlier)."""
+    cfgs = [dict(case["grid"])]
+    objs = [hg.build(cfgs[0])]
+    asked_before_change = changed = False
+    asked = set()
+    for op in case["ops"]:
+        if op[0] == "copy":
+            if len(objs) < 4:
+                k = op[2] % len(objs)
+                objs.append(objs[k].copy(deep=bool(op[1])))
+                cfgs.append(dict(cfgs[k]))
+        elif op[0] == "relayout":
+            if len(objs) < 4:
+                k = op[1] % len(objs)
+                lens = [len(a) for a in hg.user_axes(cfgs[k])]
+                c2 = hg.same_geometry_layout(cfgs[k], op[2], bool(op[3]), [bool(d) and n > 1 for d, n in zip(op[4], lens)])
+                objs.append(hg.build(c2))
+                cfgs.append(c2)
+        elif op[0] == "setloc":
+            k = op[2] % len(objs)
+            if cfgs[k]["loc"] != op[1] and any(k in pair for pair in asked):
+                changed = True
+            objs[k].data_location = op[1]
+            cfgs[k] = dict(cfgs[k], loc=op[1])
+        else:
+            i, j = op[1] % len(objs), op[2] % len(objs)
+            exp = cfgs[i]["loc"] == cfgs[j]["loc"]  # one geometry: the location sets agree iff the data locations do
+            if changed and (i, j) in asked:
+                asked_before_change = True
+            asked.add((i, j))
+            got = bool(objs[i].compatible_with(objs[j]))
+            if got != exp:
+                ctx.violation("compatible-stale" if (i, j) in asked else "compatible-wrong",
+                              f"after {op}: object {i} ({hg.flags(cfgs[i])}) compatible_with object {j} ({hg.flags(cfgs[j])}) -> {got}, fresh grids give {exp}")
+                return
+            if op[0] == "transform":
+                try:
+                    tr = objs[i].get_transform_to(objs[j])
+                except ValueError:
+                    if exp:
+                        ctx.violation("transform-refused", f"after {op}: transform between compatible objects {i}->{j} refused")
+                        return
+                    continue
+                if not exp:
+                    ctx.violation("transform-of-incompatible", f"after {op}: transform between incompatible objects {i}->{j} returned")
+                    return
+                LA, _sa, _oa = hg.ref(cfgs[i])
+                LB, sb, _ob = hg.ref(cfgs[j])
+                xa, xb = field(LA), field(LB)
+                out = xa if tr is None else tr(xa.copy())
+                if np.shape(out) != tuple(sb) or not np.array_equal(out, xb):
+                    ctx.violation("transform-stale", f"after {op}: transform {i}->{j} does not put the values at the same physical locations")
+                    return
+    ctx.event("asked-again-after-in-place-change" if asked_before_change else "plain-history")
+    ctx.nontrivial(asked_before_change and len(objs) >= 2)
+
+
+_k = st.integers(0, 3)
+obj_op = st.one_of(
+    st.tuples(st.just("copy"), st.booleans(), _k),
+    st.tuples(st.just("relayout"), _k, st.sampled_from("CF"), st.booleans(), st.lists(st.booleans(), min_size=3, max_size=3)),
+    st.tuples(st.just("setloc"), st.sampled_from(["CELLS", "POINTS"]), _k),
+    st.tuples(st.just("setloc"), st.sampled_from(["CELLS", "POINTS"]), _k),
+    st.tuples(st.just("compat"), _k, _k),
+    st.tuples(st.just("compat"), _k, _k),
+    st.tuples(st.just("transform"), _k, _k),
+    st.tuples(st.just("transform"), _k, _k),
+).map(list)
+
+
+@st.composite
+def objects_case(draw):
+    """creation ops first, then rounds of: ask about a pair - switch the location of one of the two in place - ask
+    about the same pair again (plus free ops in between)"""
+    ops = [draw(obj_op.filter(lambda o: o[0] in ("copy", "relayout"))) for _ in range(draw(st.integers(1, 3)))]
+    for _ in range(draw(st.integers(1, 5))):
+        i, j = draw(_k), draw(_k)
+        kind = draw(st.sampled_from(["compat", "transform"]))
+        ops.append([kind, i, j])
+        ops += draw(st.lists(obj_op, max_size=2))
+        ops.append(["setloc", draw(st.sampled_from(["CELLS", "POINTS"])), draw(st.sampled_from([i, j]))])
+        ops.append([draw(st.sampled_from(["compat", "transform"])), i, j])
+    return {"grid": draw(hg.grid_cfg(classes=("rect", "uni"), min_len=2, max_len=3)), "ops": ops}
+
+
+objects_st = objects_case()
+
 def parts():
     return [
         Part("canon_enum", check_canon, enumerate=lambda tier: hg.enum_layouts(), exhaustive=True),
@@ -389,5 +482,6 @@ def parts():
         Part("pairs_gen", check_pair, strategy=pair_case(), budget={"quick": 1200, "thorough": 30000}),
         Part("compat_gen", check_compat, strategy=compat_case(), budget={"quick": 1500, "thorough": 30000}),
         Part("compat_long_enum", check_compat_long, enumerate=enum_compat_long, exhaustive=True),
+        Part("object_histories", check_objects, strategy=objects_st, budget={"quick": 1200, "thorough": 30000}),
         Part("compat_large", check_compat, strategy=compat_large_case(), budget={"quick": 300, "thorough": 6000}),
     ]
